@@ -284,6 +284,7 @@ def main():
 
     # ---- 5. verdict ---------------------------------------------------------------------
     known = load_known(pid)
+    reproduced_known = None
     violations = 0
     status = 0
     lines = []
@@ -299,7 +300,8 @@ def main():
         }
         match = match_known(known, rep)
         if match is not None and found is not None and not [b for b in broken if not known_covers(match, b)]:
-            lines.append(f"KNOWN-FINDING: property={pid} {match['what']}")
+            lines.append(f"KNOWN-FINDING: property={pid} {match['what']} [reproduced this run: {json.dumps({k: found.get(k) for k in ('solver', 'grid', 'threads', 'max_abs_dev') if k in found})}]")
+            reproduced_known = match
         else:
             h = hashlib.sha256(json.dumps(rep, sort_keys=True, default=str).encode()).hexdigest()[:10]
             path = os.path.join(ROOT, "replays", f"{pid}-{h}.json")
@@ -311,6 +313,10 @@ def main():
     # listed findings that were reproduced by the oracle (it reports them separately)
     for kf in (oracle_res or {}).get("known_reproduced", []):
         lines.append(f"KNOWN-FINDING: property={pid} {kf}")
+    # every listed (recorded, unrepaired) finding is announced on every run, reproduced or not
+    for k in known:
+        if k is not reproduced_known:
+            lines.append(f"KNOWN-FINDING: property={pid} {k['what']} [not reproduced this run]")
 
     # ---- 6. evidence ----------------------------------------------------------------------
     stm = {}
